@@ -19,7 +19,8 @@ def main(argv, g):
     for mode in modes:
         ps = []
         for i in range(procs):
-            gmp = ["1", "4", "16"][i % 3]
+            gl = os.environ.get("ST_GMP", "1,4,16").split(",")
+            gmp = gl[i % len(gl)]
             out = os.path.join(wd, "p%s-%d.jsonl" % (mode, i))
             env = g["worker_env"](prop, mode, tier, seed, 0, runs, out)
             env["GOMAXPROCS"] = gmp
